@@ -296,7 +296,8 @@ def run(M, rep, tier, only=None):
                         val = val[0] if isinstance(val, (tuple, list)) and len(val) == 1 else val
                         got = ("return", val)
                     if want[0] == "set":
-                        okc = got[0] == "return" and isinstance(got[1], slice) and \
+                        # a negative bound handed to the array would be read relative to the end of the *array*, not of the view
+                        okc = got[0] == "return" and isinstance(got[1], slice) and got[1].start >= 0 and got[1].stop >= 0 and \
                             list(range(got[1].start, got[1].stop, got[1].step or 1)) == want[1] and \
                             all(win.start <= i < win.stop for i in want[1])
                         wtxt = "the elements %s" % want[1]
